@@ -135,10 +135,16 @@ def run_exec(path, requests, timeout=EXEC_TIMEOUT, _locate=True):
         r["id"] = i
         lines.append(json.dumps(r, ensure_ascii=False))
     data = ("\n".join(lines) + "\n").encode("utf-8")
+    # generous watchdog: executors answer ~1e5 requests per second
+    budget = min(timeout, 90 + 0.01 * len(requests))
     try:
-        p = subprocess.run([path], input=data, capture_output=True, timeout=timeout)
+        p = subprocess.run([path], input=data, capture_output=True, timeout=budget)
     except subprocess.TimeoutExpired:
-        raise Inconclusive("executor watchdog fired: %s" % path)
+        if _locate:
+            idx = _locate_hang(path, requests)
+            if idx is not None:
+                raise ExecCrash(idx, requests[idx], "no answer within %d s in 3 attempts on its own, while other requests take microseconds: non-termination" % HANG_SINGLE_S)
+        raise Inconclusive("executor watchdog fired after %.0f s: %s" % (budget, path))
     if p.returncode != 0:
         err = p.stderr[-500:].decode("utf-8", "replace")
         died = p.returncode < 0 or "overflowed its stack" in err or "fatal runtime error" in err or p.returncode in (134, 139)
@@ -162,6 +168,37 @@ def run_exec(path, requests, timeout=EXEC_TIMEOUT, _locate=True):
             raise Inconclusive("harness error: " + r["panic"])
         resps.append(r)
     return resps
+
+
+HANG_SINGLE_S = 30
+
+
+def _hangs(path, requests, budget):
+    lines = [json.dumps(dict(r, id=i), ensure_ascii=False) for i, r in enumerate(requests)]
+    try:
+        subprocess.run([path], input=("\n".join(lines) + "\n").encode("utf-8"), capture_output=True, timeout=budget)
+        return False
+    except subprocess.TimeoutExpired:
+        return True
+
+
+def _locate_hang(path, requests):
+    """Index of a request that reproducibly never returns (bisection over prefixes), else None."""
+    budget = lambda n: 20 + 0.01 * n
+    lo, hi = 0, len(requests)
+    if not _hangs(path, requests, budget(hi)):
+        return None
+    while hi - lo > 1:
+        mid = (lo + hi) // 2
+        if _hangs(path, requests[:mid], budget(mid)):
+            hi = mid
+        else:
+            lo = mid
+    idx = hi - 1
+    for _ in range(3):
+        if not _hangs(path, [requests[idx]], HANG_SINGLE_S):
+            return None
+    return idx
 
 
 def _crashes(path, requests, timeout):
@@ -409,8 +446,9 @@ def run_cases(part, bin_path, cases, judge, jctx, chunk=40000):
                 ci = next(i for i, (o, n) in enumerate(spans) if o <= e.index < o + n)
                 c = sub[ci]
                 part.evals += 1
-                sig = {"kind": "process_abort", "backend": jctx.get("backend"), "op": e.request.get("op"),
-                       "class": {"kind": "process_abort", "backend": jctx.get("backend"), "op": e.request.get("op"),
+                kind = "non_termination" if "non-termination" in e.how else "process_abort"
+                sig = {"kind": kind, "backend": jctx.get("backend"), "op": e.request.get("op"),
+                       "class": {"kind": kind, "backend": jctx.get("backend"), "op": e.request.get("op"),
                                  "where": e.request.get("ty") or [e.request.get("l"), e.request.get("o"), e.request.get("r")]}}
                 part.violation(sig, "%s: the executor process died (%s) while executing %s - the operation neither returned nor panicked" % (
                     str(jctx.get("module", "")).upper(), e.how, {k: v for k, v in e.request.items() if k != "table"}),
